@@ -628,8 +628,8 @@ def _run(args: tuple[list[str], str, dict[str, str], str, str]
         shutil.rmtree(scratch, ignore_errors=True)
 
 
-def generate(props: list[str], root: Path, only: Optional[set[str]] = None
-             ) -> list[tuple[list[str], str, dict[str, str], str, str]]:
+def generate(props: list[str], root: Path, only: Optional[set[str]] = None,
+             funcs: Optional[set[str]] = None) -> list[tuple[list[str], str, dict[str, str], str, str]]:
     from .main import run_rules
     seen: dict[str, set[str]] = {}
     ctx = None
@@ -647,7 +647,7 @@ def generate(props: list[str], root: Path, only: Optional[set[str]] = None
     jobs = []
     for q in sorted(seen):
         fi = index.functions.get(q)
-        if fi is None:
+        if fi is None or (funcs and fi.node.name not in funcs):
             continue
         rel = fi.module.relpath
         # run every claimed property: a rewrite in a function one property
@@ -710,8 +710,12 @@ def main() -> int:
     for a in sys.argv[1:]:
         if a.startswith("--only="):
             only = set(a.split("=")[1].split(","))
+    funcs = None
+    for a in sys.argv[1:]:
+        if a.startswith("--funcs="):
+            funcs = set(a.split("=")[1].split(","))
     props = CLAIMED if (not args or "ALL" in args) else args
-    jobs = generate(props, DEFAULT_ROOT, only)
+    jobs = generate(props, DEFAULT_ROOT, only, funcs)
     with ProcessPoolExecutor(max_workers=16) as ex:
         res = list(ex.map(_run, jobs, chunksize=2))
     bad = [r for r in res if r["fired"]]
